@@ -481,7 +481,12 @@ class WebSocket:
                     return self.cont_frame.extract(frame)
 
             elif frame.opcode == ABNF.OPCODE_CLOSE:
-                self.send_close()
+                try:
+                    self.send_close()
+                except (OSError, WebSocketConnectionClosedException):
+                    # the peer dropped the connection right behind its close
+                    # frame: the reply is undeliverable, the frame still counts
+                    pass
                 return frame.opcode, frame
             elif frame.opcode == ABNF.OPCODE_PING:
                 if len(frame.data) < 126:
